@@ -134,6 +134,10 @@ func GenerateViews(r *lp.Rng, index int) *Design {
 			_ = vi
 			td.Views = append(td.Views, v)
 		}
+		if index%4 == 3 && len(td.Views) > 1 {
+			// the default view is not the one declared first
+			td.Views = append(td.Views[1:], td.Views[0])
+		}
 	}
 	for i := 0; i < nT; i++ {
 		d.Types = append(d.Types, infos[i].td)
